@@ -28,6 +28,8 @@ def run(ctx):
     if not summ:
         raise vlib.Inconclusive("publish driver did not finish:\n" + out[-1500:])
     ctx.evaluations += len(cases)
+    if summ[0].get("env"):
+        raise vlib.Inconclusive("%d cases hit an environment failure (no local port / descriptor); nothing is concluded from them" % summ[0]["env"])
     ctx.traces += len(cases) - summ[0]["bad"]
     for c in cases:
         ctx.distinct.add(vlib.fp(c))
